@@ -127,7 +127,7 @@ for n, lens in ((1, (1,)), (2, (2, 3, 4, 5)), (3, (3, 4, 5))):
                 bound = "ASCII haystack window of %d chars%s, needle %d chars, %s, all bytes/ignore_case/normalize" % (L, " preceded by one char" if st else " at position 0", n, CFGNAME[k])
                 tier = "quick" if (L <= 4 or (n == 3 and k == 0)) else "thorough"
                 UC("c03-cs-ws-" + tag, "score", "cs_witness_and_score::<%s>()" % shape, {"C03": tier, "C02": tier, "C10": tier}, "bounded", SCORE_FNS,
-                   "calculate_score: appended indices == forward-greedy positions, valid witness, prior content untouched, score == fzf scheme on those indices",
+                   "calculate_score: one index per needle char appended (valid witness inside the window), prior content untouched, score == fzf scheme on those indices",
                    unwind=max(h + 3, 7), bound=bound, cost=3)
                 if (n, L) in ((2, 4), (3, 5)):
                     UC("c03-cs-agree-" + tag, "score", "cs_variants_agree::<%s>()" % shape, {"C03": "quick"}, "bounded", SCORE_FNS,
